@@ -3,8 +3,9 @@
 // interleavings of block production / sync, header and data submission against a scripted DA double
 // (aggregator variant: the real submitHeadersToDA / submitDataToDA produce the marks) or DA scanning
 // (full-node variant: the real processNextDAHeaderAndData -> handlePotentialHeader/Data produce the
-// marks), runs of the real DAIncluderLoop under testing/synctest, crashes after k effects of such a run,
-// and clean restarts (SaveCache, NewManager).  Writes cases_C07.v (for Model/Includer.v) and result.json.
+// marks under scripted DA fetch faults, the real SyncLoop applies what the scan found), runs of the real
+// DAIncluderLoop under testing/synctest, crashes after k effects of such a run, and clean restarts (SaveCache,
+// NewManager).  Writes cases_C07.v (for Model/Includer.v; full-node cases: Model/IncluderScan.v) and result.json.
 package c07
 
 import (
@@ -51,6 +52,7 @@ type Op struct {
 	Tx     int       `json:"tx,omitempty"`     // append/produce: id of the transaction list (0 = empty block)
 	Script []Outcome `json:"script,omitempty"` // subh/subd: outcomes of the successive DA submit calls (then ok)
 	Blobs  []BlobRef `json:"blobs,omitempty"`  // post: the blobs of one new DA height
+	Faults []Fault   `json:"faults,omitempty"` // scan: what the successive fetch attempts of this iteration meet (then truthful service)
 	Kc     int       `json:"kc,omitempty"`     // crash/fault: effects (datastore writes, SetFinal calls) of the includer run that still happen
 }
 
@@ -86,6 +88,35 @@ func genScript(r *rand.Rand) []Outcome {
 	return s
 }
 
+// genFaults: the DA faults one scan iteration meets: mostly none or a few transient ones of every class (listing
+// error, Get error after a successful listing with / without the not-found or from-the-future text, deadline),
+// sometimes ten or more (the iteration gives up and is repeated later).
+func genFaults(r *rand.Rand) []Fault {
+	n := 0
+	switch x := r.Intn(100); {
+	case x < 55:
+		n = 0
+	case x < 80:
+		n = 1
+	case x < 92:
+		n = 2 + r.Intn(2)
+	case x < 96:
+		n = 9
+	default:
+		n = 10 + r.Intn(2)
+	}
+	classes := []Fault{{"list", "plain"}, {"list", "deadline"}, {"get", "plain"}, {"get", "nf"}, {"get", "nfwrap"}, {"get", "nf"}, {"get", "deadline"}}
+	var fs []Fault
+	for i := 0; i < n; i++ {
+		if n <= 3 && r.Intn(12) == 0 { // an answer "from the future" for a height that exists: returned at once
+			fs = append(fs, []Fault{{"list", "fut"}, {"get", "fut"}}[r.Intn(2)])
+			continue
+		}
+		fs = append(fs, classes[r.Intn(len(classes))])
+	}
+	return fs
+}
+
 func genTx(r *rand.Rand) int {
 	if r.Intn(100) < 35 {
 		return 0
@@ -118,7 +149,7 @@ func genHistory(r *rand.Rand, mode string, maxLen int) []Op {
 			}
 		} else {
 			switch {
-			case x < 10:
+			case x < 16:
 				h = append(h, Op{K: "produce", Tx: genTx(r)})
 				produced++
 			case x < 32:
@@ -142,7 +173,7 @@ func genHistory(r *rand.Rand, mode string, maxLen int) []Op {
 				}
 				h = append(h, Op{K: "post", Blobs: bl})
 			case x < 72:
-				h = append(h, Op{K: "scan"})
+				h = append(h, Op{K: "scan", Faults: genFaults(r)})
 			case x < 88:
 				h = append(h, Op{K: "include"})
 			case x < 93:
@@ -252,6 +283,8 @@ type caseRun struct {
 	commitID map[string]uint64 // data commitment -> tx list id
 	txOf     []int             // tx list id per height of the node under test
 	groups   []string
+	fgroups  []string   // full node: the operations as groups of Model/IncluderScan.v items
+	fobs     [][2]uint64 // full node, after each operation: m.daHeight, State.DAHeight in the store
 	obs      []obsRec
 	ops      []Op // the operations actually run (history + quiescence suffix)
 	dones    []chan struct{}
@@ -377,6 +410,82 @@ func (c *caseRun) marksOf(blobs [][]byte, height uint64) []string {
 	return items
 }
 
+// blobClasses: what the retriever's admission tests make of each blob (decided here by independent decoding).
+func (c *caseRun) blobClasses(blobs [][]byte) []string {
+	var out []string
+	for _, b := range blobs {
+		if hash, _, ok := decodeHeaderBlob(b); ok {
+			if id, known := c.hashID[hash]; known {
+				out = append(out, item("BH %d", id))
+				continue
+			}
+		} else if commit, _, ok := decodeDataBlob(b); ok {
+			if id, known := c.commitID[commit]; known {
+				out = append(out, item("BD %d", id))
+				continue
+			}
+		}
+		out = append(out, "BJ")
+	}
+	return out
+}
+
+// runSync runs the real SyncLoop of the node (it first tries the next block from the caches, sync.go:27), hands it
+// the events the DA scan produced — headers first, then data, each processed to quiescence — and stops it.
+func (c *caseRun) runSync(hev []block.NewHeaderEvent, dev []block.NewDataEvent) {
+	m := c.nd.m
+	ctx, cancel := context.WithCancel(c.ctx)
+	errCh := make(chan error, 8)
+	done := make(chan struct{})
+	go func() { m.SyncLoop(ctx, errCh); close(done) }()
+	synctest.Wait()
+	for _, e := range hev {
+		select {
+		case m.VerifHeaderInCh() <- e:
+		default:
+		}
+		synctest.Wait()
+	}
+	for _, e := range dev {
+		select {
+		case m.VerifDataInCh() <- e:
+		default:
+		}
+		synctest.Wait()
+	}
+	cancel()
+	<-done
+	select {
+	case err := <-errCh:
+		c.harnessE = fmt.Errorf("SyncLoop returned an error: %w", err)
+	default:
+	}
+}
+
+// noteApplied: the blocks the node under test (full node) has applied since the last look.
+func (c *caseRun) noteApplied(fitems *[]string) {
+	sh, _ := c.nd.m.GetStoreHeight(c.ctx)
+	for h := c.synced + 1; h <= sh; h++ {
+		hd, d, err := c.nd.st.GetBlockData(c.ctx, h)
+		if err != nil {
+			c.harnessE = err
+			return
+		}
+		tx, known := c.commitID[d.DACommitment().String()]
+		if !known && len(d.Txs) != 0 {
+			c.harnessE = fmt.Errorf("commitment of applied block %d is not one of the pool's", h)
+			return
+		}
+		if id, ok := c.hashID[hd.Hash().String()]; !ok || id != h {
+			c.harnessE = fmt.Errorf("applied block %d is not the source chain's", h)
+			return
+		}
+		c.txOf = append(c.txOf, int(tx))
+		*fitems = append(*fitems, item("FApply (B %d %d)", h, tx))
+		c.synced = h
+	}
+}
+
 // runLoop starts the real DAIncluderLoop, signals it, waits until everything is blocked, stops it.
 // k >= 0: the process dies after k effects of the run (fault: effect k+1 fails instead and the loop returns
 // its error). It returns what GetDAIncludedHeight() of that process says at that instant.
@@ -446,7 +555,7 @@ func (c *caseRun) liveMarkSets() (map[string]bool, map[string]bool) {
 
 func (c *caseRun) exec(op Op) {
 	n := c.nd
-	var items []string
+	var items, fitems []string // the operation in items of Model/Includer.v (aggregator) / Model/IncluderScan.v (full node)
 	switch op.K {
 	case "append":
 		if c.mode == "agg" {
@@ -476,6 +585,8 @@ func (c *caseRun) exec(op Op) {
 					return
 				}
 			}
+			// the block arrives by P2P: the store-retrieve loops hand it to sync with the scan cursor as the
+			// event's DA height (block/store.go:32,87); sync caches both parts and calls trySyncNextBlock
 			next := c.synced + 1
 			hd, d, err := c.src.st.GetBlockData(c.ctx, next)
 			if err != nil {
@@ -484,23 +595,22 @@ func (c *caseRun) exec(op Op) {
 			}
 			n.m.HeaderCache().SetItem(next, hd)
 			n.m.DataCache().SetItem(next, d)
-			if err := n.m.VerifTrySyncNextBlock(c.ctx, 0); err != nil {
+			if err := n.m.VerifTrySyncNextBlock(c.ctx, n.m.VerifDAHeight()); err != nil {
 				c.harnessE = fmt.Errorf("trySyncNextBlock: %w", err)
 				return
 			}
-			if h, _ := n.m.GetStoreHeight(c.ctx); h != next {
+			if h, _ := n.m.GetStoreHeight(c.ctx); h < next {
 				c.harnessE = fmt.Errorf("sync did not apply block %d", next)
 				return
 			}
-			c.synced = next
-			c.txOf = append(c.txOf, c.srcTx[next-c.ih])
-			items = append(items, item("IAppend (B %d %d)", next, c.srcTx[next-c.ih]))
+			c.noteApplied(&fitems) // (later blocks whose parts the DA scan had cached are applied with it)
 		}
 	case "produce":
 		if err := c.produce(op.Tx); err != nil {
 			c.harnessE = err
 			return
 		}
+		fitems = append(fitems, "FNop")
 	case "subh", "subd":
 		n.da.mu.Lock()
 		n.da.script = append([]Outcome{}, op.Script...)
@@ -549,24 +659,52 @@ func (c *caseRun) exec(op Op) {
 			}
 		}
 		n.da.post(blobs)
+		fitems = append(fitems, "FPost "+vgen.List(c.blobClasses(blobs)))
 	case "scan":
-		h := n.m.VerifDAHeight()
-		if err := n.m.VerifProcessNextDAHeaderAndData(c.ctx); err == nil {
-			n.m.VerifSetDAHeight(h + 1)
-			n.da.mu.Lock()
-			blobs := n.da.heights[h]
-			n.da.mu.Unlock()
-			items = append(items, c.marksOf(blobs, h)...)
+		// one RetrieveLoop iteration (retriever.go:35-50): the real processNextDAHeaderAndData against the DA
+		// double scripted with this iteration's faults; the cursor moves iff it returned nil
+		var fl []string
+		for _, f := range op.Faults {
+			if f.Op == "list" && f.nf() {
+				c.harnessE = fmt.Errorf("a listing fault with the not-found text is outside the DA contract of this harness")
+				return
+			}
+			if f.Op == "list" {
+				fl = append(fl, "FList "+vgen.Bool(f.fut()))
+			} else {
+				fl = append(fl, fmt.Sprintf("FGet %s %s", vgen.Bool(f.nf()), vgen.Bool(f.fut())))
+			}
 		}
+		n.da.mu.Lock()
+		n.da.faults = append([]Fault{}, op.Faults...)
+		n.da.mu.Unlock()
+		h := n.m.VerifDAHeight()
+		err := n.m.VerifProcessNextDAHeaderAndData(c.ctx)
+		n.da.mu.Lock()
+		n.da.faults = nil
+		n.da.mu.Unlock()
+		if err == nil {
+			n.m.VerifSetDAHeight(h + 1)
+		}
+		fitems = append(fitems, "FScan "+vgen.List(fl))
+		// what the scan found goes to the REAL SyncLoop, one event at a time in a fixed order
+		var hev []block.NewHeaderEvent
+		var dev []block.NewDataEvent
 		for len(n.m.VerifHeaderInCh()) > 0 {
-			<-n.m.VerifHeaderInCh()
+			hev = append(hev, <-n.m.VerifHeaderInCh())
 		}
 		for len(n.m.VerifDataInCh()) > 0 {
-			<-n.m.VerifDataInCh()
+			dev = append(dev, <-n.m.VerifDataInCh())
 		}
+		c.runSync(hev, dev)
+		if c.harnessE != nil {
+			return
+		}
+		c.noteApplied(&fitems)
 	case "include":
 		c.runLoop(-1, false)
 		items = append(items, "IInclude")
+		fitems = append(fitems, "FInclude")
 	case "crash":
 		// marks that exist only in memory and belong to blocks not yet included are lost by this crash
 		if c.mode == "agg" {
@@ -594,6 +732,7 @@ func (c *caseRun) exec(op Op) {
 		}
 		c.checkAfterDeath(seen, "reported-height-decreases-across-crash", "at the instant of its death")
 		items = append(items, item("ICrash %d%%nat", modelK(op.Kc)))
+		fitems = append(fitems, item("FCrash %d%%nat", modelK(op.Kc)))
 	case "fault":
 		// effect Kc+1 of the run fails; the loop reports the error, the node shuts down cleanly and is started again
 		seen := c.runLoop(op.Kc, true)
@@ -615,6 +754,7 @@ func (c *caseRun) exec(op Op) {
 		}
 		c.checkAfterDeath(seen, "reported-height-decreases-after-write-fault", "while alive, after a failed effect")
 		items = append(items, item("IFault %d%%nat", modelK(op.Kc)))
+		fitems = append(fitems, item("FFault %d%%nat", modelK(op.Kc)))
 	case "restart":
 		c.savedH, c.savedD = c.liveMarkSets()
 		if err := n.m.SaveCache(); err != nil {
@@ -629,12 +769,27 @@ func (c *caseRun) exec(op Op) {
 			return
 		}
 		items = append(items, "IRestart")
+		fitems = append(fitems, "FRestart")
 	default:
 		c.harnessE = fmt.Errorf("bad op %q", op.K)
 		return
 	}
+	if c.harnessE != nil {
+		return
+	}
 	c.ops = append(c.ops, op)
-	c.groups = append(c.groups, vgen.List(items))
+	if c.mode == "full" {
+		c.fgroups = append(c.fgroups, vgen.List(fitems))
+		// (no state is stored before the first block is applied: NewManager then starts from DAHeight 0)
+		st, err := c.nd.st.GetState(c.ctx)
+		if err != nil && !strings.Contains(err.Error(), "not found") {
+			c.harnessE = fmt.Errorf("GetState: %w", err)
+			return
+		}
+		c.fobs = append(c.fobs, [2]uint64{c.nd.m.VerifDAHeight(), st.DAHeight})
+	} else {
+		c.groups = append(c.groups, vgen.List(items))
+	}
 	di := c.nd.m.GetDAIncludedHeight()
 	sh, _ := c.nd.m.GetStoreHeight(c.ctx)
 	nx, err := c.nd.m.IsDAIncluded(c.ctx, di+1)
@@ -997,8 +1152,13 @@ func (c *caseRun) coqCase(idx int, withKeys bool) string {
 	for _, d := range c.deaths {
 		deaths = append(deaths, fmt.Sprint(d))
 	}
-	return fmt.Sprintf("Definition c%d : icase := {| ic_base := %d; ic_ops := %s;\n ic_obs := %s;\n ic_trace := %s;\n ic_death := %s;\n ic_meta := %s;\n ic_hm := %s;\n ic_dm := %s;\n ic_keys := %s |}.",
-		idx, c.ih-1, vgen.List(c.groups), vgen.List(obs), vgen.List(trace), vgen.List(deaths), vgen.List(meta), vgen.List(hm), vgen.List(dm), vgen.List(keys))
+	var fobs []string
+	for _, o := range c.fobs {
+		fobs = append(fobs, fmt.Sprintf("(%d, %d)", o[0], o[1]))
+	}
+	return fmt.Sprintf("Definition c%d : icase := {| ic_base := %d; ic_ops := %s;\n ic_obs := %s;\n ic_trace := %s;\n ic_death := %s;\n ic_meta := %s;\n ic_hm := %s;\n ic_dm := %s;\n ic_keys := %s;\n ic_full := %s; ic_fops := %s;\n ic_fobs := %s |}.",
+		idx, c.ih-1, vgen.List(c.groups), vgen.List(obs), vgen.List(trace), vgen.List(deaths), vgen.List(meta), vgen.List(hm), vgen.List(dm), vgen.List(keys),
+		vgen.Bool(c.mode == "full"), vgen.List(c.fgroups), vgen.List(fobs))
 }
 
 func caseRng(seed int64, c int) *rand.Rand { return rand.New(rand.NewSource(seed*1000003 + int64(c))) }
@@ -1084,6 +1244,12 @@ func TestVerif(t *testing.T) {
 			if op.K == "crash" || op.K == "fault" {
 				res.Count(fmt.Sprintf("%s-after-effects:%d", op.K, op.Kc))
 			}
+			for _, f := range op.Faults {
+				res.Count("da-fetch-fault:" + f.Op + "/" + f.Text)
+			}
+			if op.K == "scan" && len(op.Faults) >= 10 {
+				res.Count("history:scan-iteration-with-ten-or-more-faults")
+			}
 		}
 		res.Count(fmt.Sprintf("final-height:%d", min(out.finalDi, 10)))
 		if out.shared {
@@ -1115,6 +1281,18 @@ func TestVerif(t *testing.T) {
 					}
 				}
 			}
+			// ... and drop every DA fetch fault the failure does not need
+			for i := range sh {
+				for k := 0; k < len(sh[i].Faults); {
+					cand := append([]Op{}, sh...)
+					cand[i].Faults = append(append([]Fault{}, sh[i].Faults[:k]...), sh[i].Faults[k+1:]...)
+					if o := runCase(t, j.mode, j.ih, cand, 0, false); o.err == nil && hasSig(o, sig) {
+						sh = cand
+					} else {
+						k++
+					}
+				}
+			}
 			res.Violations = append(res.Violations, vgen.Violation{Signature: sig, What: out.what[vi], Case: ji,
 				Replay: Replay{Seed: j.seed, Case: j.c, Mode: j.mode, IH: j.ih, History: sh}})
 		}
@@ -1132,9 +1310,9 @@ func TestVerif(t *testing.T) {
 		}
 	}
 	res.Distinct = len(distinct)
-	res.Rule = "histories of 4..maxLen operations; even cases on an aggregator (real publishBlock, real submitHeadersToDA/submitDataToDA against a DA double with scripted outcomes: partial acceptance, errors, timeouts, accepted-but-ack-lost), odd cases on a full node (real trySyncNextBlock, blobs posted by a source aggregator's real submitter, real processNextDAHeaderAndData); 35% empty blocks, transaction lists drawn from 3 so that blocks share data commitments; runs of the real DAIncluderLoop under synctest; crashes after 0..9 effects (datastore writes / SetFinal calls) of an includer run with the height the dying process reports sampled at that instant, NewManager on the image; faults (effect k+1 of a run fails, the loop returns its error, clean shutdown, restart); clean restarts with SaveCache; one case in five with genesis.InitialHeight 2..4; every history is followed by a fault-free quiescence suffix (submit what is pending / scan to the DA tip, include) after which the reported height must equal the height up to which both parts of every block are on the DA double; non-trivial = at least 4 operations and final height >= 1; distinct = distinct projected traces"
+	res.Rule = "histories of 4..maxLen operations; even cases on an aggregator (real publishBlock, real submitHeadersToDA/submitDataToDA against a DA double with scripted outcomes: partial acceptance, errors, timeouts, accepted-but-ack-lost), odd cases on a full node: blocks and blobs come from a source aggregator's real producer / submitter; blobs (headers, data, junk; repeats; header and data of a block at the same or at different DA heights, several blocks at one DA height) are posted to the DA double; every scan operation is one RetrieveLoop iteration = the real processNextDAHeaderAndData against the DA double scripted with that iteration's fetch faults (0..11 of: GetIDs error, deadline, Get error after a truthful listing with plain / 'blob: not found' (sentinel or wrapped) / deadline / 'from the future' text; then truthful service), the cursor moved iff it returned nil, and the events it produced are handed to the REAL SyncLoop (headers, then data, each to quiescence), which applies blocks with the event's DA height; blocks also arrive as by P2P (both parts cached, real trySyncNextBlock with the scan cursor as DA height); 35% empty blocks, transaction lists drawn from 3 so that blocks share data commitments; runs of the real DAIncluderLoop under synctest; crashes (no SaveCache) after 0..9 effects (datastore writes / SetFinal calls) of an includer run with the height the dying process reports sampled at that instant, NewManager on the image; faults (effect k+1 of a run fails, the loop returns its error, clean shutdown, restart); clean restarts with SaveCache; one case in five with genesis.InitialHeight 2..4; on the full node the scan cursor m.daHeight and the State.DAHeight read back from the store are compared with the model after every operation; every history is followed by a fault-free quiescence suffix (submit what is pending / scan to the DA tip with sync, include) after which the reported height must equal the height up to which both parts of every block are on the DA double; the committed corpus (harness/corpus/C07) holds the full-node scenarios 'parts at different DA heights, crash after apply', 'P2P block after scanning, crash', 'Get fails after a successful listing'; non-trivial = at least 4 operations and final height >= 1; distinct = distinct projected traces"
 	res.Cases = len(cases)
-	header := "From Coq Require Import String NArith List Bool.\nFrom Verif Require Import Base.Keys Model.Includer Check.IncluderCheck."
+	header := "From Coq Require Import String NArith List Bool.\nFrom Verif Require Import Base.Keys Model.Includer Model.IncluderScan Check.IncluderCheck."
 	defs = append([]string{"Open Scope N_scope."}, defs...)
 	path := filepath.Join(e.Out, "cases_C07.v")
 	if err := vgen.WriteCases(path, header, defs, "icase", cases, "mismatches"); err != nil {
